@@ -327,6 +327,64 @@ Proof.
 Qed.
 Print Assumptions C17_tree_witness.
 
+(* --- decrypted assertions in a SIGNED response (Model/EncryptSigned.v) ---
+   parse_assertion hands a `verified` flag to decrypt_assertions after the first decrypt loop and in the advice pass.
+   A valid response signature covers the ciphertext, not what is inside it: both flags are False whatever the
+   response signature is, the model with the flags explicit IS the model of the theorems above, ... *)
+From PV Require Import Model.EncryptSigned Proofs.EncryptSigned_lemmas.
+Theorem C17_verified_flag_ignores_response_signature :
+  (forall signed, vf_first code_flags signed = false /\ vf_advice code_flags signed = false) /\
+  (forall signed tc c irt req s root again fs,
+     parse_t_v code_flags signed tc c irt req s root again fs = parse_t tc c irt req s root again fs) /\
+  (forall tc c r root fs, parse_response_t_v code_flags tc c r root fs = parse_response_t tc c r root fs).
+Proof. split; [exact code_flags_false|]. split; [exact parse_t_v_code|exact parse_response_t_v_code]. Qed.
+Print Assumptions C17_verified_flag_ignores_response_signature.
+
+(* ... hence C17_decrypted_checked for SIGNED responses: for every tree, key set, tool policy, fault schedule and every
+   signature-requirement setting of the SP (c is arbitrary), every assertion read from a validly signed response
+   satisfies the C04/C05 facts and its own signature, if any, verified *)
+Theorem C17_decrypted_checked_signed_response :
+  forall tc c r root fs o, t_fixed tc = true -> r_sig r = Some (Ok tt) ->
+    parse_response_t_v code_flags tc c r root fs = Ok o ->
+    Forall (fun n => exists a, a_id a = n /\ assertion_facts c (r_irt r) a /\ (a_sig a = None \/ a_sig a = Some (Ok tt))) (o_assertions o) /\
+    Forall (fun n => exists req v, a_id (v_a v) = n /\ view_not_bad v /\
+                       exists sa sa', check_assertion c (r_irt r) req false sa (as_checked v) = Ok sa') (o_assertions o).
+Proof.
+  intros tc c r root fs o Hf _ H. rewrite parse_response_t_v_code in H. split.
+  - exact (C17_tree_assertion_facts tc c r root fs o Hf H).
+  - exact (C17_second_loop_sees_nothing_new tc c r root fs o Hf H).
+Qed.
+Print Assumptions C17_decrypted_checked_signed_response.
+
+(* the same code with a flag that trusts the response signature (verified = bool(self.response.signature)) is refuted:
+   a validly signed response, an encrypted assertion whose own signature does NOT verify, want_assertions_signed on or
+   off: read; the code as it is refuses it, and the trusting variant refuses it too when the response is unsigned.
+   Likewise for the flag of the advice pass (PEFIM: encrypted advice assertion with a bad signature). *)
+Definition envS := {| r_sig := Some (Ok tt); r_valid_instance := true; r_irt := Some (s2l "req-1");
+  r_version := Some V20; r_ver_lt2 := Some false; r_destination := Some acs; r_issue_instant := 1000000;
+  r_status := Some {| st_code := Some (Code (Some Gen.StatusTable.STATUS_SUCCESS) None); st_msg := false |};
+  r_assertions := []; r_encrypted := [] |}.
+Definition doc_pefim_bad :=
+  [DEA [DEnc 1 (DAsrt (asrtW 1 (Some (Ok tt)) 1000300) false [DEA [DEnc 1 (DAsrt (asrtW 2 bad_sig 1000300) false [] [])]] [])]].
+Theorem C17_trusting_response_signature_refuted :
+  (forall b, exists o, parse_response_t_v trusting_flags (tcW PFail true) (cfgW b) envS doc_bad [] = Ok o /\ o_assertions o = [1%N]) /\
+  (forall b, is_ok (parse_response_t_v code_flags (tcW PFail true) (cfgW b) envS doc_bad []) = false) /\
+  (forall b, is_ok (parse_response_t_v trusting_flags (tcW PFail true) (cfgW b) envW doc_bad []) = false) /\
+  (forall b, exists o, parse_response_t_v trusting_advice_flags (tcW PFail true) (cfgW b) envS doc_pefim_bad [] = Ok o /\ o_assertions o = [1%N]) /\
+  (forall b, is_ok (parse_response_t_v code_flags (tcW PFail true) (cfgW b) envS doc_pefim_bad []) = false).
+Proof.
+  split; [intros []; eexists; split; vm_compute; reflexivity|]. split; [intros []; vm_compute; reflexivity|].
+  split; [intros []; vm_compute; reflexivity|]. split; [intros []; eexists; split; vm_compute; reflexivity|intros []; vm_compute; reflexivity].
+Qed.
+Print Assumptions C17_trusting_response_signature_refuted.
+
+(* non-vacuity: a validly signed response with a validly signed encrypted assertion is accepted and read *)
+Example C17_signed_response_witness :
+  exists o, parse_response_t_v code_flags (tcW PFail true) (cfgW true) envS
+              [DEA [DEnc 1 (DAsrt (asrtW 1 (Some (Ok tt)) 1000300) false [] [])]] [] = Ok o /\ o_assertions o = [1%N].
+Proof. eexists; split; vm_compute; reflexivity. Qed.
+Print Assumptions C17_signed_response_witness.
+
 (* GLUE to C16 (Proofs/Glue_enc_certs.v, docs/Glue.md): the metadata store of the *_md theorems is Model/CertSelect.v's;
    C16 ties Model/MdStore.v to MetadataStore.  For the store an IdP loaded from its configured sources, read as a
    CertSelect store ([abs_store num]): every ciphertext opens under a certificate handed in, or under a real
